@@ -47,13 +47,19 @@ def catalogue():
     out += [("list[int]", list[int]), ("List[int]", typing.List[int]), ("dict[str,int]", dict[str, int]), ("Dict[str,int]", typing.Dict[str, int]),
             ("tuple[int,...]", tuple[int, ...]), ("tuple[int,str]", tuple[int, str]), ("set[int]", set[int]), ("frozenset[int]", frozenset[int]),
             ("deque[int]", collections.deque[int]), ("UserId", UserId), ("Stamp", Stamp)]
+    # NewType and alias wrappers of one class of every kind the predicates distinguish
+    from typelib.py import compat
+    for nm, c in (("int", int), ("float", float), ("str", str), ("bytes", bytes), ("Decimal", decimal.Decimal), ("Color", tp.Color),
+                  ("Path", pathlib.PurePosixPath), ("Pattern", re.Pattern), ("date", datetime.date), ("UUID", uuid.UUID)):
+        out.append((f"NewType({nm})", typing.NewType(f"NT_{nm}", c)))
+        out.append((f"TypeAliasType({nm})", compat.TypeAliasType(f"AL_{nm}", c)))
     return out
 
 
 def origin_spec(a):
     """typing origin after NewType resolution and the documented abstract -> builtin mapping."""
-    while hasattr(a, "__supertype__"):
-        a = a.__supertype__
+    while hasattr(a, "__supertype__") or hasattr(a, "__value__"):
+        a = a.__supertype__ if hasattr(a, "__supertype__") else a.__value__
     o = typing.get_origin(a) or a
     for n, concrete in spec.ABSTRACT_COLLECTIONS.items():
         if o is getattr(collections.abc, n):
@@ -70,7 +76,7 @@ def search(stop_at=1):
     table = {}
     table.update({k: (True, v, ()) for k, v in spec.VIA_ORIGIN.items()})
     table.update({k: (True, v, spec.COLLECTION_EXTRAS) for k, v in spec.VIA_ORIGIN_WITH_EXTRAS.items()})
-    table.update({k: (False, v, ()) for k, v in spec.DIRECT.items()})
+    table.update({k: (True, v, ()) for k, v in spec.DIRECT.items()})      # (all of them: the class the annotation resolves to)
     for pname, (via, bases, extras) in table.items():
         pred = getattr(inspection, pname)
         for aname, a in catalogue():
